@@ -7,7 +7,7 @@ HOOKS = {
 }
 
 ENGINES = [
-    {"name": "seqmc", "path": "/verif/seqmc", "serves_properties": ["C01", "C02", "C08", "C10", "C13"],
+    {"name": "seqmc", "path": "/verif/seqmc", "serves_properties": ["C01", "C02", "C08", "C10", "C12", "C13", "C17"],
      "kind_free_text": "Engine A: bounded-exhaustive sequential explorer (deterministic enumerators over boundary alphabets, sharded worker processes, guard-page memory, explicit-state BFS over operation sequences with replay on fresh instances)"},
 ]
 
@@ -16,6 +16,18 @@ NOTES = "All checks are driven by bin/vcheck (lib/vcheck.py): it rebuilds the en
 NOT_APPLICABLE = {}
 
 CHECKS = {
+    "C12": {
+        "engine": "seqmc", "level": "model_checking", "design_ref": "DESIGN.md §P C12",
+        "technique": "explicit-state breadth-first search over all writer call sequences up to length 6/8 on the real writer (successor = replay on a fresh writer + one call; states deduplicated by an in-package dump of the complete writer state)",
+        "text": "Every sequence of up to 6 (quick) / 8 (thorough) calls from a 46-op alphabet on an explicitly owned writer and its value/list/message/field handles (current and previous handle, handle copies, nested containers, Any, Copy, End/Build on any handle, Len/HasField/Err, Reset, Free, an unrelated pooled writer used in between) is executed on the real implementation; on every transition: no panic, the first error is sticky until Reset, Err() agrees with returned errors, a successful Build returns bytes that the library parser and an independent decoder consume completely, and a Reset writer dumps identically to a fresh one.",
+        "note": "Equal dumps are assumed to have equal futures (the dump covers every field of writer and writerState). Known finding: calls on a MessageWriter value after End/Build on that value panic by design (m.w=nil).",
+    },
+    "C17": {
+        "engine": "seqmc", "level": "exploration", "design_ref": "DESIGN.md §P C17",
+        "technique": "bounded-exhaustive enumeration of the C01 tree space (incl. families beyond the preallocated table/stack sizes) with testing.AllocsPerRun==0 as the oracle for read walks and steady-state writes",
+        "text": "For every tree of the C01 space, including families with up to 300 fields/elements and nesting depth 20 (beyond the 48 preallocated table slots and 14 stack entries), testing.AllocsPerRun must be exactly 0 for ParseValue plus a complete type-directed accessor walk, and, after warm-up, for re-writing the tree with a reused explicit writer and with the pooled NewXWriterBuffer route into a reused buffer.",
+        "note": "GC is disabled during measurement (pool eviction by the GC is outside the steady-state claim). Wrong-type accessor calls (error paths) and Values()/Clone are not part of the walk.",
+    },
     "C01": {
         "engine": "seqmc", "level": "exploration", "design_ref": "DESIGN.md §P C01",
         "technique": "bounded-exhaustive enumeration of value trees (all trees <=3/4 nodes over a boundary alphabet x every tag write order x 6 construction routes, plus parametric boundary families) against the tree as reference model",
